@@ -94,15 +94,39 @@ driver raises, or is passed over — patch 06, the current tree).
     removed as in `remove_dangling_sem` (the loop `densify` in between is absorbed: it is an identity embedding).  The
     result need not satisfy `NNet.wf`: `Line.remove()` leaves a trailing `None` in
     the pin list of a cell (example `exImplFZ`; then `copy_dump_eq` does not apply to it).
-    NOT covered (modelled, covered by `substitute_ports` / `substitute_state_perm` and the oracle only): an input pin that
-    the implementation ignores (`Line.remove` renumbers lines inside the loop), an implementation without designated cell
-    (`node.remove()`: no output and no state element, or — since the repair of D32 — a feed-through), implementations
-    violating `implOKB`.
+    Not covered by THESE theorems (but by `substitute_sem_general` below): an input pin that the implementation ignores
+    (`Line.remove` renumbers lines inside the loop), an implementation without designated cell (`node.remove()`: no output
+    and no state element, or — since the repair of D32 — a feed-through).
+  - **`substitute_sem_general`** (statement `SubstGenStmt`; Proofs/SubstGen1-17, Proofs/WFr.lean) — the semantic statement along
+    **index maps** for EVERY use of `substitute` under the decidable side conditions `implGenOKB` (= `implOKB` without the clause
+    "a designated cell exists": ports distinct, no port a flip-flop/latch, driven ports read inside are forks) and `noSelfIgnB`
+    (no connected ignored pin is driven by the cell itself), host well-formed only up to trailing `None`s (`wfNoTrail`), cell
+    neither port nor fork: (a) connected input pins that the implementation IGNORES (`ll.reader = None; ll.remove()` in the
+    middle of the connecting loop: swap-with-last renumbering of the lines, squeeze of a driving fork), (b) implementations
+    WITHOUT designated cell (`node.remove()`: the last node takes the index of the instance; filler / antenna cells, feed-through),
+    unconnected pins and dangling logic as before.  `R.node j'` / `R.line l'` = canonical index (host index; `map[j]` for the copy of
+    implementation node `j`; `h.lines.size + t` for the `t`-th copied line) of node / line of the result: injective, ports in
+    order, every host node other than the cell survives with kind, name and renamed input lines, every flip-flop/latch of the
+    implementation survives, only host lines that end at the cell can disappear, the result is well-formed up to trailing
+    `None`s; (1) every labelling of the result consistent outside `S` is the restriction of a labelling of the whole host
+    consistent outside `S ∪ {cell}` plus an `ImplMatches` labelling of the implementation — with prescribed values for the
+    removed lines that are driven by holes; (2) the converse.  Method: the real run is put in lockstep (`Lk`) with a virtual run
+    on the host in which the ignored pins count as unconnected and the instance is kept (certificate of the earlier theorems,
+    generalised to hosts with lines that are stale on the reader side, `WFr`); the real result embeds into the virtual one.
   - **`resolve_sem`** — `resolve_tlib_cells` (model `resolveCells`) when every substitution along the loop removes nothing
     (`resolveOKB`, decidable by running the model): the result is well-formed, keeps ports, other nodes and node keys, and
     its consistent labellings are exactly the labellings of the original circuit that are consistent outside the library
     cells and give every library cell the relational meaning (`ImplMatches`) of its implementation — by induction over the
     loop with `substitute_sem` for hole sets.
+  - **`resolve_sem_general`** (Proofs/SubstGen18-23) — `resolve_tlib_cells` through substitutions that REMOVE lines, instances and
+    dangling logic (`resolveGenOKB`: every substitution along the loop satisfies the hypotheses of `substitute_sem_general`;
+    decidable, evaluated by running the model; contains `resolveOKB`): index maps `ρ` from the result to the original circuit
+    (which node / line of the result IS which original node / line), result well-formed up to trailing `None`s, every original
+    node that is no library cell survives with kind, name and renamed input lines; (1) every consistent labelling of the result
+    is the restriction of a labelling of the WHOLE original circuit (removed lines included) that is consistent outside the
+    library cells and gives every library cell the relational meaning of its implementation with its ORIGINAL pins (a line
+    that an earlier substitution removed at an output pin of a cell substituted later takes the value of that cell's
+    implementation output: prescribed values of `SubstGenStmt`); (2) the converse.  By induction over the loop (`ResRelG`).
   - `resolve_ports` — `resolve_tlib_cells` (model `resolveCells`) keeps the port list, names and order, for every library.
 * **Correspondence** (harness/c10.py, differential, not proof): model dumps after copy / pickle round trip /
   `eliminate_1to1_forks` = dumps of the real objects on random circuits (both port styles, permuted node order,
@@ -115,12 +139,16 @@ driver raises, or is passed over — patch 06, the current tree).
   model's `regularB` = the harness's own reading of "regular use".  `resolve_tlib_cells` (driver command `resolve`) = the
   real method on random circuits instantiating cells of the five built-in libraries and of synthetic libraries.
 * **Oracle only** (harness/c10.py): for the uses of `substitute` / `resolve_tlib_cells` outside the hypotheses of
-  `substitute_sem` / `resolve_sem` (something is removed, `implOKB` fails) the semantic statement (Boolean function at
-  ports and state elements unchanged) is decided on the real code by simulation before/after (random compositions, every
-  library cell × pin subsets, synthetic libraries); the same simulation also runs on the covered uses.  The harness
-  evaluates `keepsAllB` / `implOKB` / `noIgnoredB` / `resolveOKB` / `denseB` on every real case of the correspondence streams
-  (driver commands `substok` / `resolveok`), counts how many fall under the theorems (tags `sem-hyp:*`, with
-  `sem-hyp:covered-gap` = a copied fork had a gap) and checks `wf` of the REAL result there.
+  `substitute_sem_general` / `resolve_sem_general` (an implementation violating `implGenOKB`: a port that is a flip-flop, a driven
+  port read inside that is no fork, duplicate ports; a cell that is a port or a fork; an ignored pin driven by the cell itself)
+  the semantic statement (Boolean function at ports and state elements unchanged) is decided on the real code by simulation
+  before/after (random compositions, every library cell × pin subsets, synthetic libraries); the same simulation also runs on the
+  covered uses.  The harness evaluates `keepsAllB` / `implOKB` / `noIgnoredB` / `resolveOKB` / `denseB` and `implGenOKB` / `noSelfIgnB` /
+  `resolveGenOKB` on every real case of the correspondence streams (driver commands `substok` / `resolveok`), counts how many
+  fall under the theorems (tags `sem-hyp:*`: `covered`, `covered-removing`, `covered-gap` = a copied fork had a gap,
+  `covered-general-ignored-pin` / `covered-general-no-designated-cell` / `covered-general` = only under the general theorems;
+  coverage keys `corr_subst_in_hypotheses_of_substitute_sem_general`, `corr_resolve_in_hypotheses_of_resolve_sem_general`) and
+  checks `wf` / `wfNoTrail` of the REAL result there.
   D30 / D32 are repaired in the code under test; their witnesses (`FORK_GAP_WITNESS` in harness/c09.py,
   corpus/C10-designated-port.json) run first in every run and are violations if the behaviour returns. -/
 namespace KV.C10
